@@ -383,13 +383,34 @@ theorem good_observed (E : Ext) (f : NFmt) (a : Aff Rat) (h : NHdr) (hg : Good E
   · simp only [NHdr.sformCoded, h1, NHdr.getSform, h2]; rfl
   · simp only [NHdr.qformCoded, h3, if_true]
 
-theorem roundtrip_of_saved_good (E : Ext) (f : NFmt) (shape : List Nat) (a : Aff Rat) (hdr : Option NHdr)
+/-- the loader's code check leaves such a header alone as long as code 2 ('aligned') is in the table -/
+theorem good_checkFix (E : Ext) (f : NFmt) (h2 : f.validCodes.contains 2 = true) (a : Aff Rat) (h : NHdr)
+    (hg : Good E a h) : Good E a (h.checkFix f) := by
+  obtain ⟨g1, g2, g3⟩ := hg
+  refine ⟨?_, g2, ?_⟩
+  · simp only [NHdr.checkFix, g1, h2, if_true]
+  · simp only [NHdr.checkFix, g3]; split <;> rfl
+
+theorem fixCode_idem (l : List Nat) (c : Nat) :
+    (if l.contains (if l.contains c then c else 0) then (if l.contains c then c else 0) else 0)
+      = (if l.contains c then c else 0) := by
+  by_cases h : l.contains c = true
+  · simp only [h, if_true]
+  · simp only [h, Bool.false_eq_true, if_false]; split <;> rfl
+
+theorem checkFix_idem (f : NFmt) (h : NHdr) : (h.checkFix f).checkFix f = h.checkFix f := by
+  by_cases hs : f.validCodes.contains h.sformCode = true <;> by_cases hq : f.validCodes.contains h.qformCode = true <;>
+    simp only [NHdr.checkFix, hs, hq, if_true, if_false, Bool.false_eq_true, ite_self]
+
+theorem roundtrip_of_saved_good (E : Ext) (f : NFmt) (h2 : f.validCodes.contains 2 = true) (shape : List Nat)
+    (a : Aff Rat) (hdr : Option NHdr)
     (h : NHdr) (hs : niftiSavedHeader E f shape a hdr = .ok h) (hg : Good E a h) :
     niftiRoundtrip E f shape a hdr = .ok ⟨a.map E.rnd, (some (a.map E.rnd), 2), (none, 0)⟩ := by
-  obtain ⟨o1, o2, o3⟩ := good_observed E f a h hg
+  obtain ⟨o1, o2, o3⟩ := good_observed E f a _ (good_checkFix E f h2 a h hg)
   simp only [niftiRoundtrip, hs, bind, Except.bind, o1, o2, o3, pure, Except.pure]
 
-theorem nifti_roundtrip_no_header (E : Ext) (f : NFmt) (shape : List Nat) (a : Aff Rat) :
+theorem nifti_roundtrip_no_header (E : Ext) (f : NFmt) (h2 : f.validCodes.contains 2 = true) (shape : List Nat)
+    (a : Aff Rat) :
     niftiRoundtrip E f shape a none = .ok ⟨a.map E.rnd, (some (a.map E.rnd), 2), (none, 0)⟩ := by
   have hb : (defaultNHdr shape).bestAffine E f = .ok (defaultNHdr shape).baseAffine := by
     simp only [NHdr.bestAffine, defaultNHdr]; rfl
@@ -397,36 +418,45 @@ theorem nifti_roundtrip_no_header (E : Ext) (f : NFmt) (shape : List Nat) (a : A
     simp only [NHdr.updateHeader, hb]; split <;> exact ⟨_, rfl⟩
   obtain ⟨h1, e1⟩ := h1
   obtain ⟨h3, e3, g3⟩ := updateHeader_good E f a _ (good_affine2header E a h1)
-  refine roundtrip_of_saved_good E f shape a none h3 ?_ g3
+  refine roundtrip_of_saved_good E f h2 shape a none h3 ?_ g3
   simp only [niftiSavedHeader, e1, bind, Except.bind, Option.isNone_none, if_true, e3]
 
-theorem nifti_roundtrip_header_not_close (E : Ext) (f : NFmt) (shape : List Nat) (a : Aff Rat) (h : NHdr)
-    (b : Aff Rat) (hb : ({ h with shape := shape } : NHdr).bestAffine E f = .ok b) (hfar : E.allclose a b = false) :
+theorem nifti_roundtrip_header_not_close (E : Ext) (f : NFmt) (h2 : f.validCodes.contains 2 = true)
+    (shape : List Nat) (a : Aff Rat) (h : NHdr)
+    (b : Aff Rat) (hb : (({ h with shape := shape } : NHdr).checkFix f).bestAffine E f = .ok b)
+    (hfar : E.allclose a b = false) :
     niftiRoundtrip E f shape a (some h) = .ok ⟨a.map E.rnd, (some (a.map E.rnd), 2), (none, 0)⟩ := by
-  have e1 : ({ h with shape := shape } : NHdr).updateHeader E f a
-      = .ok (({ h with shape := shape } : NHdr).affine2header E a) := by
+  have e1 : (({ h with shape := shape } : NHdr).checkFix f).updateHeader E f a
+      = .ok ((({ h with shape := shape } : NHdr).checkFix f).affine2header E a) := by
     simp only [NHdr.updateHeader, hb, hfar, Bool.false_eq_true, if_false]
-  obtain ⟨h3, e3, g3⟩ := updateHeader_good E f a _ (good_affine2header E a { h with shape := shape })
-  refine roundtrip_of_saved_good E f shape a (some h) h3 ?_ g3
+  obtain ⟨h3, e3, g3⟩ := updateHeader_good E f a _ (good_affine2header E a (({ h with shape := shape } : NHdr).checkFix f))
+  refine roundtrip_of_saved_good E f h2 shape a (some h) h3 ?_ g3
   simp only [niftiSavedHeader, e1, bind, Except.bind, Option.isNone_some, Bool.false_eq_true, if_false, e3]
 
 theorem nifti_roundtrip_header_close (E : Ext) (f : NFmt) (shape : List Nat) (a : Aff Rat)
-    (h : NHdr) (b : Aff Rat) (hb : ({ h with shape := shape } : NHdr).bestAffine E f = .ok b)
+    (h : NHdr) (b : Aff Rat) (hb : (({ h with shape := shape } : NHdr).checkFix f).bestAffine E f = .ok b)
     (hclose : E.allclose a b = true) :
-    niftiSavedHeader E f shape a (some h) = .ok { h with shape := shape } ∧
-    (∀ o, niftiRoundtrip E f shape a (some h) = .ok o → o.affine = b) := by
-  have e1 : ({ h with shape := shape } : NHdr).updateHeader E f a = .ok { h with shape := shape } := by
+    niftiSavedHeader E f shape a (some h) = .ok (({ h with shape := shape } : NHdr).checkFix f) ∧
+    (∀ o, niftiRoundtrip E f shape a (some h) = .ok o →
+      o.affine = b ∧ o.sform.2 = (({ h with shape := shape } : NHdr).checkFix f).sformCode) := by
+  have e1 : (({ h with shape := shape } : NHdr).checkFix f).updateHeader E f a
+      = .ok (({ h with shape := shape } : NHdr).checkFix f) := by
     simp only [NHdr.updateHeader, hb, hclose, if_true]
-  have hs : niftiSavedHeader E f shape a (some h) = .ok { h with shape := shape } := by
+  have hs : niftiSavedHeader E f shape a (some h) = .ok (({ h with shape := shape } : NHdr).checkFix f) := by
     simp only [niftiSavedHeader, e1, bind, Except.bind, Option.isNone_some, Bool.false_eq_true, if_false]
   refine ⟨hs, ?_⟩
   intro o ho
-  simp only [niftiRoundtrip, hs, bind, Except.bind, hb] at ho
-  cases hq : ({ h with shape := shape } : NHdr).qformCoded E f with
+  simp only [niftiRoundtrip, hs, bind, Except.bind, checkFix_idem, hb] at ho
+  cases hq : (({ h with shape := shape } : NHdr).checkFix f).qformCoded E f with
   | error e => simp only [hq] at ho; cases ho
   | ok q =>
     simp only [hq, pure, Except.pure, Except.ok.injEq] at ho
     rw [← ho]
+    refine ⟨rfl, ?_⟩
+    simp only [NHdr.sformCoded]
+    split
+    · rename_i h0; exact h0.symm
+    · rfl
 
 /-! ### Analyze -/
 
